@@ -253,13 +253,17 @@ Section ABF.
   Definition abf_run (c : abf_cfg) (h : list abf_in) := abf_run_from c (abf_init c) h.
 
   (* inputPrefix: colvarbias_abf::read_gradients_samples adds the counts of the .count file to `samples` and,
-     for the .grad file, gradient * (count read) to `gradients` (colvar_grid_gradient::value_input with add) *)
-  Definition abf_init_data (c : abf_cfg) (cnt0 : idx -> Z) (grad0 : idx -> vec) : abf_state :=
-    let nd := c_nd c in
-    mkSt cnt0 (fun b => vbuild nd (fun k => nmul O (vget (grad0 b) k) (nofZ O (cnt0 b)))) (repeat 0 nd) (repeat 0 nd)
-         (vzero nd) (vzero nd) (vzero nd) (vzero nd) (vzero nd) (vzero nd) 0 false.
-  Definition abf_run_data (c : abf_cfg) (cnt0 : idx -> Z) (grad0 : idx -> vec) (h : list abf_in) :=
-    abf_run_from c (abf_init_data c cnt0 grad0) h.
+     for the .grad file, gradient * (count read) to `gradients` (colvar_grid_gradient::value_input with add).
+     One data set per prefix of the inputPrefix list, added in order. *)
+  Definition dataset := ((idx -> Z) * (idx -> vec))%type.
+  Definition abf_add_data (c : abf_cfg) (s : abf_state) (d : dataset) : abf_state :=
+    mkSt (fun b => s_cnt s b + fst d b)
+         (fun b => vbuild (c_nd c) (fun k => nadd O (vget (s_sum s b) k) (nmul O (vget (snd d b) k) (nofZ O (fst d b)))))
+         (s_bin s) (s_fbin s) (s_fabf s) (s_fprev s) (s_ft s) (s_fold s) (s_eng s) (s_fj s) (s_rel s) (s_started s).
+  Definition abf_init_data (c : abf_cfg) (l : list dataset) : abf_state :=
+    fold_left (abf_add_data c) l (abf_init c).
+  Definition abf_run_data (c : abf_cfg) (l : list dataset) (h : list abf_in) :=
+    abf_run_from c (abf_init_data c l) h.
 
   (* ------------------------------------------------------------------------------------------
      Specification: the attributed samples of a history.
